@@ -34,12 +34,14 @@ struct cancellation_node {
 
 /* A cancellation request races with the scheduler thread: by the time its record is processed the task may already
  * have been run. aws_task_scheduler_cancel_task() invokes the task unconditionally, so a task that was handed to the
- * scheduler is only given to it while it is still pending there (linked into one of its lists or in its timed queue);
- * otherwise the task would be invoked a second time. A task the request itself removed from the hand-over queue never
- * reached the scheduler and gets its one, cancelled, invocation here. */
+ * scheduler is only given to it while it is still pending there (the scheduler's own `scheduled` mark, which only this
+ * thread writes); otherwise the task would be invoked a second time. A task the request itself removed from the hand-over
+ * queue never reached the scheduler and gets its one, cancelled, invocation here. The task's list node is not looked at:
+ * a task that was scheduled again in the meantime sits in the hand-over queue, which belongs to the threads holding the
+ * mutex - it is neither unlinked from there without the lock nor cancelled by a request that predates it. */
 static void s_process_cancellation(struct aws_thread_scheduler *scheduler, struct cancellation_node *cancellation_node) {
     struct aws_task *task = cancellation_node->task_to_cancel;
-    if (cancellation_node->removed_from_scheduling_queue || task->node.next != NULL || task->abi_extension.scheduled) {
+    if (cancellation_node->removed_from_scheduling_queue || task->abi_extension.scheduled) {
         aws_task_scheduler_cancel_task(&scheduler->scheduler, task);
     }
 }
